@@ -356,3 +356,40 @@ def shared_default_aliasing(fn_node: ast.AST) -> List[Tuple[str, ast.AST, ast.AS
             if isinstance(inner, ast.Subscript) and isinstance(inner.value, ast.Name) and inner.value.id in made:
                 out.append((inner.value.id, made[inner.value.id], st))
     return out
+
+
+def method_objects_tested(eng, f) -> List[Tuple[ast.AST, str, str]]:
+    """`if x.m and ...` / `not x.m` / `a if x.m else b` where m is a METHOD (not a property) of the repository class x is
+    typed as: the bound method object is always true - the call parentheses are missing. -> [(test node, receiver class, method)]"""
+    prog = eng.prog
+    ft = eng.T.fn(f)
+    out = []
+
+    def operands(t):
+        if isinstance(t, ast.BoolOp):
+            for v in t.values:
+                yield from operands(v)
+        elif isinstance(t, ast.UnaryOp) and isinstance(t.op, ast.Not):
+            yield from operands(t.operand)
+        else:
+            yield t
+    tests = []
+    for n in walk_local(f.node):
+        if isinstance(n, (ast.If, ast.IfExp, ast.While)):
+            tests.append(n.test)
+        elif isinstance(n, ast.Assert):
+            tests.append(n.test)
+        elif isinstance(n, ast.comprehension):
+            tests += n.ifs
+    from .types_lite import members
+    for t in tests:
+        for o in operands(t):
+            if not isinstance(o, ast.Attribute):
+                continue
+            rt = ft.of(o.value)
+            for u in members(rt):
+                if u[0] == "inst" and u[1] in prog.classes:
+                    m = prog.find_method(prog.classes[u[1]], o.attr)
+                    if m is not None and not any((dotted(d) or "").split(".")[-1] in ("property", "cached_property") for d in m.node.decorator_list):
+                        out.append((t, prog.classes[u[1]].name, o.attr))
+    return out
